@@ -3,6 +3,7 @@ import IstioModel.C13.Model
 import IstioModel.C13.Conc
 import IstioModel.C13.Cla
 import IstioModel.C13.Net
+import IstioModel.C13.Lb
 import IstioModel.C13.Svc
 
 /-! Line-protocol driver for C13 (stream `index`). See harness/c13. -/
@@ -121,6 +122,13 @@ def showRes (keys : List Key) (r : Res) (withPush : Bool) : String :=
 def decOp (toks : List String) : Option Op :=
   match toks with
   | ["upd", sk, k, eps] => do
+    let sk ← decPair sk; let k ← decPair k; let eps ← decEps eps
+    pure (.update sk k eps)
+  -- the cache-only entry point (`EDSCacheUpdate`, alone or with `SvcUpdate`): the same index operation
+  | ["updc", sk, k, eps] => do
+    let sk ← decPair sk; let k ← decPair k; let eps ← decEps eps
+    pure (.update sk k eps)
+  | ["upds", sk, k, eps] => do
     let sk ← decPair sk; let k ← decPair k; let eps ← decEps eps
     pure (.update sk k eps)
   | ["delsvc", sk, k, p] => do
@@ -344,17 +352,32 @@ def decGw (t : String) : Option Gw :=
 def decGws (t : String) : List Gw :=
   if t == "-" then [] else (t.splitOn ";").filterMap decGw
 
+def decDist (t : String) : List Distribute :=
+  if t == "-" then [] else
+  (t.splitOn ";").filterMap fun r =>
+    match r.splitOn ">" with
+    | [src, dsts] =>
+      let tos : List (String × Nat) := (dsts.splitOn "&").filterMap fun pw =>
+        match pw.splitOn "^" with
+        | [p, w] => some (dec p, decNat w)
+        | _ => none
+      some { src := dec src, to := tos }
+    | _ => none
+
 /-- One watched cluster of a `push` line:
-    `svc|ns|port|subset|portName|subsetLabels|clusterLocal|nodeLocal|unhealthyOk|persistent`
+    `svc|ns|port|subset|portName|subsetLabels|clusterLocal|nodeLocal|unhealthyOk|persistent[|proxyLocality|distribute]`
     (the first four fields name the real cluster; `portName = !` = the service has no such port). -/
 def claOfQuery (d : DState) (proxy : Builder) (gws : List Gw) (q : String) : String :=
-  match q.splitOn "|" with
-  | [svc, ns, _, _, portName, sub, cl, nl, uok, pers] =>
+  let go (svc ns portName sub cl nl uok pers ploc dist : String) : String :=
     if portName == "!" then "cla -" else
     let b : Builder := { proxy with
       portName := dec portName, subset := decLabels sub, clusterLocal := tokBool cl,
       nodeLocal := tokBool nl, unhealthyOk := tokBool uok, persistent := tokBool pers }
-    showCLA (serveCLA b gws (d.idx (dec svc, dec ns)))
+    showCLA (serveLB b gws (splitLoc (dec ploc)) (decDist dist) (d.idx (dec svc, dec ns)))
+  match q.splitOn "|" with
+  | [svc, ns, _, _, portName, sub, cl, nl, uok, pers] => go svc ns portName sub cl nl uok pers "~" "-"
+  -- ... plus the proxy's locality and the `distribute` rules of the service's DestinationRule
+  | [svc, ns, _, _, portName, sub, cl, nl, uok, pers, ploc, dist] => go svc ns portName sub cl nl uok pers ploc dist
   | _ => "bad-query"
 
 def decPortMap (t : String) : List (String × Nat) :=
@@ -378,6 +401,7 @@ def stepCla (d : DState) (toks : List String) : DState × String :=
     if outs.contains "crash" then (d, "crash") else (d, "served " ++ " || ".intercalate outs)
   | ["drset", _, _] => (d, "ok")
   | ["paset", _] => (d, "ok")
+  | ["noise"] => (d, "ok")
   | ["svcidx", svc, ns, port, labels, pm] =>
     let eps := serviceEndpointsByPort (d.idx (dec svc, dec ns)) (decPortMap pm) (decNat port) (decLabels labels)
     let toks := (eps.map encEp).mergeSort (fun a b => !(b < a))
@@ -388,8 +412,10 @@ def stepCla (d : DState) (toks : List String) : DState × String :=
     | some op =>
       let r := apply d.idx op
       let keys := addKeys op d.keys
-      ({ d with idx := r.st, keys := keys },
-       (if op.isUpdate then r.push.tok else "-") ++ " | " ++ showIndex keys r.st)
+      -- `EDSCacheUpdate` returns nothing: no push type to compare
+      let head := if toks.head? == some "updc" || toks.head? == some "upds" then "Cache"
+                  else if op.isUpdate then r.push.tok else "-"
+      ({ d with idx := r.st, keys := keys }, head ++ " | " ++ showIndex keys r.st)
 
 /-- `case <n> <stream> [unfixed]`: stream `sched` runs the concurrent model (of the repaired code
     unless the case says `unfixed`), stream `cla` adds membership queries to the index operations. -/
